@@ -70,6 +70,13 @@ func NewRun(property, level string) *Run {
 	r := &Run{Property: property, Tier: tier, Level: level, Seed: seed, start: time.Now(),
 		distinct: map[uint64]struct{}{}, viol: map[string][]Violation{}, violCount: map[string]int{},
 		extra: map[string]any{}, exhaustive: true}
+	// soft deadline of the thorough tier (enumerators consult Expired, record a cap and the run ends
+	// with exit 0 and exhaustive=false): 40 minutes unless VERIF_DEADLINE_SEC says otherwise
+	if sec, err := strconv.Atoi(os.Getenv("VERIF_DEADLINE_SEC")); err == nil && sec > 0 {
+		r.deadline = time.Now().Add(time.Duration(sec) * time.Second)
+	} else if tier == "thorough" {
+		r.deadline = time.Now().Add(40 * time.Minute)
+	}
 	return r
 }
 
